@@ -13,6 +13,13 @@ def leaf(rng, labs, allow=("label", "var", "dict", "model")):
         return l, (lambda x, l=l: x[l]), repr(l)
     if how == "var":
         return L.boolean_var(l), (lambda x, l=l: x[l]), "boolean_var(%r)" % (l,)
+    if how == "dict" and len(labs) >= 3 and rng.random() < 0.35:
+        # a plain product of three (or four) distinct variables, as a dict or through AND
+        ls = rng.sample(labs, min(len(labs), rng.choice([3, 3, 4])))
+        f = (lambda x, ls=tuple(ls): int(all(x[v] for v in ls)))
+        if rng.random() < 0.5:
+            return {tuple(ls): 1}, f, "{%s}" % "*".join(map(repr, ls))
+        return L.sat.AND(*ls), f, "AND(%s)" % ", ".join(map(repr, ls))
     if how == "dict":
         l2 = rng.choice(labs)
         if l2 == l:
